@@ -51,7 +51,7 @@ theorem or_bit_list : ∀ (tail : List Bool) (b : Bool), tail.length ≤ 6 →
   | [a0, a1, a2, a3, a4, a5], b, _ => or_bit a0 a1 a2 a3 a4 a5 false ⟨6, by decide⟩ b
   | _ :: _ :: _ :: _ :: _ :: _ :: _ :: _, _, h => by simp only [List.length_cons] at h; omega
 
-/-- a packed partial byte has no bit above its values -/
+/-- a packed incomplete byte has no bit above its values -/
 theorem packed_masked : ∀ (tail : List Bool), tail.length ≤ 7 →
     UInt8.ofNat (bitsByte tail) &&& maskOf tail.length = UInt8.ofNat (bitsByte tail)
   | [], _ => by decide
@@ -236,7 +236,7 @@ theorem list8 : ∀ (l : List Bool), l.length = 8 → ∃ a0 a1 a2 a3 a4 a5 a6 a
   | [_, _, _, _, _, _, _], h => by simp at h
   | _ :: _ :: _ :: _ :: _ :: _ :: _ :: _ :: _ :: _, h => by simp only [List.length_cons] at h; omega
 
-/-- one batch on a packed buffer (`full`: the whole bytes, `tail`: the 0..7 values of the partial byte) -/
+/-- one batch on a packed buffer (`full`: the whole bytes, `tail`: the 0..7 values of the incomplete byte) -/
 theorem writeValues_packed (full tail rows : List Bool) (junk : UInt8) (hfm : full.length % 8 = 0)
     (ht7 : tail.length ≤ 7) :
     BoolBuf.writeValues { bits := packBits (full ++ tail), numValues := (full ++ tail).length } rows junk
